@@ -176,7 +176,7 @@ class FuncVerifier(object):
              ('assert', expr)                  prove expr here, then assume it (intermediate assertion)
              ('forall_lemma', k, lo, hi, name, [arg exprs])   instantiate for all k in [lo,hi) (requires proved under the range)
         """
-        if hints:
+        if hints is not None:
             st.snaps = dict(st.snaps)
             st.snaps[site] = (dict(st.env) if not extra else dict(st.env, **extra), dict(st.heap))
         for hi_, h in enumerate(hints):
